@@ -6,7 +6,7 @@ import re
 
 from .. import mir, feat, flow, shape
 from ..core import where
-from ..ctx import prog, Z, SYS
+from ..ctx import prog, writes, Z, SYS
 
 EXPLANATION = (
     "FEAT: for every call to a function carrying #[target_feature(..)] (all such call sites in K1, K3 and the AVX-512 "
@@ -130,7 +130,34 @@ def fold_probe_consistency(ck, P, cfg):
         ck.decide(pa == pb, R, "Writer dispatch@" + cfg, "same probe ladder %s" % [p.split("::")[-1] for p in pa], "copy_match and extend_from_window dispatch on different probes: %s vs %s" % (pa, pb))
 
 
+def exclusive_access(ck, P):
+    """a stream cannot be driven from two threads at once through the safe API: every method that advances
+    or reconfigures a stream takes `&mut self` (the borrow checker then rejects concurrent use)"""
+    R = "TYPE/exclusive-access"
+    n = 0
+    for f in P.fns.values():
+        if not (f.path.startswith(Z + "stable::Deflate::") or f.path.startswith(Z + "stable::Inflate::")) or f.j.get("vis") != "Public":
+            continue
+        name = f.path.split("::")[-1]
+        ins = f.j.get("inputs", [])
+        if name in ("new", "new_with_config") or not ins:
+            continue
+        W = writes("K1")
+        mutates = any(q == 1 for q, p in W.may(f))
+        if name in ("total_in", "total_out", "error_message"):
+            ck.decide(not mutates, R, f.path.replace(Z, ""), "read-only accessor", "accessor %s writes through &self" % f.path, where(f))
+            continue
+        n += 1
+        ck.decide(ins[0].startswith("&mut "), R, f.path.replace(Z, ""), "takes &mut self",
+                  "%s advances the stream but takes `%s`: two threads could drive one stream concurrently through shared references" % (f.path, ins[0]), where(f))
+    ck.floor(R, n, 8)
+    for ty in (Z + "stable::Deflate", Z + "stable::Inflate"):
+        bad = [i for i in P.impls if i["trait"] in ("core::clone::Clone", "core::marker::Copy") and mir.strip_ty(i["for"]) == ty]
+        ck.decide(not bad, R, ty.replace(Z, "") + ":no-clone", "not Clone", "%s is Clone/Copy" % ty)
+
+
 def run(ck):
+    exclusive_access(ck, prog("K1"))
     for cfg, floor in (("K1", 9), ("K3", 12), ("K3b", 14)):
         P = prog(cfg)
         ck.configs.add(cfg)
